@@ -356,6 +356,15 @@ func observe(real *ordered.MapSA, m *model, probe []string, deep bool) error {
 		if err != nil {
 			failf("MarshalYAML node unreadable: %v", err)
 		}
+		// the keys of the model are STRINGS: each key node must say so (a key such as "10", "true" or
+		// "~" written as an untagged plain scalar denotes a number, a boolean, null)
+		if yn.Kind == yaml.MappingNode {
+			for i := 0; i+1 < len(yn.Content); i += 2 {
+				if k := yn.Content[i]; k.ShortTag() != "!!str" && k.Value != "<<" {
+					failf("MarshalYAML: the node of key %q resolves to %s, not to a string", k.Value, k.ShortTag())
+				}
+			}
+		}
 		if d := gt.Diff(want, gy, gt.Opt{}); d != "" {
 			failf("MarshalYAML differs from model: %s", d)
 		}
@@ -418,6 +427,8 @@ func variants(ps []pair) [][]pair {
 // generators
 
 var smallKeys = []string{"a", "b", "c"}
+
+var lookalikeKeys = []string{"10", "true", "~", "0x10", "1.5", "null", "2001-01-01"}
 
 func bigKeys() []string {
 	ks := make([]string, 200)
@@ -559,12 +570,17 @@ var recSM = ev.New("TestPropHistories", "rapid state machine over *ordered.MapSA
 func TestPropHistories(t *testing.T) {
 	big := bigKeys()
 	ev.Check(t, 3000, 40000, func(t *rapid.T) {
-		bigMode := rapid.IntRange(0, 3).Draw(t, "mode") == 0
+		mode := rapid.IntRange(0, 4).Draw(t, "mode")
+		bigMode := mode == 0
 		keys := smallKeys
 		if bigMode {
 			keys = big
 		}
-		probe := append(append([]string{}, smallKeys...), "zz-absent", "")
+		if mode == 4 {
+			// string keys that read as other YAML kinds when written plain
+			keys = lookalikeKeys
+		}
+		probe := append(append(append([]string{}, smallKeys...), lookalikeKeys...), "zz-absent", "")
 		if bigMode {
 			probe = append(probe, big[:12]...)
 		}
@@ -644,6 +660,9 @@ func TestPropHistories(t *testing.T) {
 		cls := []string{"mode=small"}
 		if bigMode {
 			cls = []string{"mode=big"}
+		}
+		if mode == 4 {
+			cls = []string{"mode=keys-that-look-like-other-yaml-kinds"}
 		}
 		if tombThenMut {
 			cls = append(cls, "tombstone-then-mutation")
